@@ -120,6 +120,13 @@ def _registry():
     pwm = PWM(np.array([[1.0, 2.0], [3.0, 4.0], [5.0, 6.0], [7.0, 8.0]]), "ACGT")
     R = {
         "str_to_int": (strops.str_to_int, lambda r: (numtext(r),), True),
+        # the same text presented as lazily indexed views (reversed rows, picked rows, masked rows, a slice of a slice)
+        "str_to_int[reversed view]": (strops.str_to_int, lambda r: (numtext(r)[::-1],), True),
+        "str_to_int[picked rows]": (strops.str_to_int, lambda r: ((lambda t: t[[len(t) - 1, 0]])(numtext(r)),), True),
+        "str_to_int[masked rows]": (strops.str_to_int, lambda r: ((lambda t: t[np.arange(len(t)) % 2 == 0])(numtext(r)),), True),
+        "str_to_int[slice of slice]": (strops.str_to_int, lambda r: ((lambda t: t[::-1][:2])(numtext(r)),), True),
+        "str_to_float[reversed view]": (strops.str_to_float, lambda r: (floattext(r)[::-1],), True),
+        "str_to_float[picked rows]": (strops.str_to_float, lambda r: ((lambda t: t[[len(t) - 1, 0]])(floattext(r)),), True),
         "str_to_int_with_missing": (strops.str_to_int_with_missing, lambda r: (bnp.as_encoded_array(["-3", "", "+4"]),), True),
         "str_to_float": (strops.str_to_float, lambda r: (floattext(r),), True),
         "ints_to_strings": (strops.ints_to_strings, lambda r: (np.array([r.randint(-10 ** 6, 10 ** 6) for _ in range(4)]),), True),
@@ -250,7 +257,8 @@ def make_events(job):
             events += _chunk_events(rng)
             continue
         fn, mk, special = reg[name]
-        a = outcome(mk, rng)
+        sub = rng.randrange(1 << 30)
+        a = outcome(mk, random.Random(sub))
         if a[0] == "err":
             continue
         args = a[1]
@@ -261,6 +269,19 @@ def make_events(job):
         after = [digest(x) for x in args]
         events.append({"f": name, "before": str(before), "after": str(after if after != before else mid), "res1": str(r1), "res2": str(r2),
                        "special": special, "args": repr(_content(args))[:300]})
+        # the same call on arguments nobody has looked at yet (looking at a lazily indexed view materialises it, which would hide a callee
+        # that writes through it): the content before the call is that of an identical twin built from the same recipe
+        a2, tw = outcome(mk, random.Random(sub)), outcome(mk, random.Random(sub))
+        if a2[0] == "ok" and tw[0] == "ok":
+            fresh, twin = a2[1], tw[1]
+            before2 = [digest(x) for x in twin]
+            q1 = outcome(lambda: digest(fn(*fresh)))
+            mid2 = [digest(x) for x in fresh]
+            q2 = outcome(lambda: digest(fn(*fresh)))
+            after2 = [digest(x) for x in fresh]
+            if before2 == before:       # the recipe is deterministic
+                events.append({"f": name + "#untouched", "before": str(before2), "after": str(after2 if after2 != before2 else mid2), "res1": str(q1), "res2": str(q2),
+                               "special": special, "args": repr(_content(twin))[:300]})
     return events
 
 
